@@ -439,6 +439,7 @@ func finishScalar(t *rapid.T, c *ScalarCase) {
 	if c.Carrier == "url" || c.Carrier == "urlenc" {
 		genAgain(t, c)
 	}
+	c.Plus = rapid.Bool().Draw(t, "plusForBlank")
 }
 
 // genAgain: now and then our URL parameter occurs more than once.
